@@ -73,6 +73,12 @@ pub fn gen(s: &mut Src) -> GenDoc {
                 let mut d = base; d.push(("ColorSpace", arr(vec![name("ICCBased"), rf(icc)]))); stream(d, &[1, 2, 3, 4, 5, 6, 7, 8, 9, 10, 11, 12]) }
             _ => stream(vec![("Type", name("XObject")), ("Subtype", name("Image")), ("Width", Obj::Int(8)), ("Height", Obj::Int(1)), ("BitsPerComponent", Obj::Int(1)), ("ImageMask", Obj::Bool(true))], &[0xa5]),
         };
+        // entries the typed image model does not know (kept in its catch-all dictionary) that lead to other objects
+        let img = match (img, s.alt(4, &["image-plain-entries", "image-unmodelled-ref-entry", "image-unmodelled-nested-ref"])) {
+            (Obj::Stream(mut d, data), 1) => { let oc = g.add(dict(vec![("Type", name("OCG")), ("Name", st("image layer"))])); d.push((b"OC".to_vec(), rf(oc))); Obj::Stream(d, data) }
+            (Obj::Stream(mut d, data), 2) => { let m = g.add(stream(vec![("Type", name("Metadata")), ("Subtype", name("XML"))], b"<x/>")); d.push((b"PieceInfo".to_vec(), dict(vec![("App", dict(vec![("Private", arr(vec![rf(m), Obj::Int(1)]))]))]))); Obj::Stream(d, data) }
+            (o, _) => o,
+        };
         images.push(g.add(img));
     }
     // ---------------------------------------------------------------- form XObjects
@@ -92,14 +98,17 @@ pub fn gen(s: &mut Src) -> GenDoc {
         if let Some(r) = resources { d.push(("Resources", r)); }
         if s.alt(3, &["form-no-matrix", "form-matrix"]) == 1 { d.push(("Matrix", ints(&[1, 0, 0, 1, 2, 3]))); }
         if s.alt(4, &["form-no-group", "form-group"]) == 1 { d.push(("Group", dict(vec![("S", name("Transparency")), ("CS", name("DeviceRGB"))]))); }
+        if s.alt(5, &["form-plain-entries", "form-unmodelled-ref-entry"]) == 1 { let oc = g.add(dict(vec![("Type", name("OCG")), ("Name", st("form layer"))])); d.push(("OC", rf(oc))); d.push(("StructParents", Obj::Int(4))); }
         forms.push(g.add(stream(d, content.as_bytes())));
     }
     // ---------------------------------------------------------------- graphics state
-    let gs: Option<Obj> = match s.alt(3, &["no-gs", "gs-plain", "gs-indirect", "gs-font", "gs-font-other-font"]) {
+    let gs: Option<Obj> = match s.alt(3, &["no-gs", "gs-plain", "gs-indirect", "gs-font", "gs-font-other-font", "gs-unmodelled-ref-entry"]) {
         0 => None,
         1 => Some(dict(vec![("Type", name("ExtGState")), ("LW", Obj::Int(2)), ("CA", Obj::Real(0.5))])),
         2 => Some(rf(g.add(dict(vec![("Type", name("ExtGState")), ("LW", Obj::Real(1.5)), ("ca", Obj::Real(0.25)), ("BM", name("Multiply"))])))),
         3 => Some(dict(vec![("Type", name("ExtGState")), ("Font", arr(vec![rf(fonts[0]), Obj::Int(12)]))])),
+        5 => { let tr = g.add(dict(vec![("FunctionType", Obj::Int(2)), ("Domain", ints(&[0, 1])), ("C0", ints(&[0])), ("C1", ints(&[1])), ("N", Obj::Int(1))]));
+               Some(dict(vec![("Type", name("ExtGState")), ("LW", Obj::Int(3)), ("TR2", rf(tr)), ("HT", name("Default"))])) }
         _ => Some(dict(vec![("Type", name("ExtGState")), ("Font", arr(vec![rf(*fonts.last().unwrap()), Obj::Int(7)]))])),
     };
     // ---------------------------------------------------------------- resource kinds beyond fonts / XObjects / ExtGState
